@@ -18,11 +18,13 @@ PROOF_FILES = ["Proof/C19.v", "Lib/Sort.v"]
 MANIFEST = {
     "text": "Coq theorems over all suite trees (structural induction on the nested tree; Permutation/Sorted for the "
             "sort; ValueError iff duplicate ids) about a hand-written Gallina model of iterate_tests/filter_by_ids/"
-            "sorted_tests/list_test, tied to /repo on every run by differential execution of model and implementation "
+            "sorted_tests/list_test and of the --load-list file reader (binary readlines + strip: one id per line, blanks "
+            "inside an id separate nothing; induction over the file's bytes), tied to /repo on every run by differential execution of model and implementation "
             "inside coqc; the oracle for a failing input is the executable statement spec_okb, proved to imply the "
             "readable Spec.",
     "note": "Trusted: Coq kernel + vm_compute; the harness (generators, drivers, Gallina printer); unittest.TestSuite "
-            "iteration; ids mapped to numbers order-preservingly. All theorems closed under the global context.",
+            "iteration; ids mapped to numbers order-preservingly through a per-case table of names (UTF-8 bytes in the "
+            "model); argparse/unittest loader glue of testtools.run. All theorems closed under the global context.",
     "technique": "Coq proof (structural induction, Permutation/Sorted) + model/implementation correspondence in coqc",
     "ref": "6 C19",
 }
@@ -63,6 +65,13 @@ POOLS = {
 }
 POOLS["mixed"] = sorted(set(POOLS["scenario"] + POOLS["short"] + POOLS["unicode"]))
 WS = " \t\n\r\x0b\x0c"
+
+
+def norm(case):
+    """cases recorded before the list-file extension have no names/file: plain ids, empty file"""
+    if "names" in case and "file" in case:
+        return case
+    return dict(case, names=case.get("names", list(PLAIN)), file=case.get("file", ""))
 
 
 def name_ok(n):
@@ -284,6 +293,7 @@ def cli_subprocess(case):
 
 
 def drive(case):
+    case = norm(case)
     from testtools.testsuite import filter_by_ids, iterate_tests, sorted_tests
     from testtools.run import list_test
     classes, T = _classes()
@@ -330,10 +340,11 @@ def t_tree(t):
 
 
 def t_bytes(text):
-    return q.lst([q.nat(b) for b in text.encode("utf-8")])
+    return q.lst([str(b) for b in text.encode("utf-8")]) + "%N"
 
 
 def term(case, o):
+    case = norm(case)
     i = q.record([("tree", t_tree(case["tree"])), ("keep", q.lst([q.nat(k) for k in case["keep"]])),
                   ("unpack", q.boolean(case["unpack"])),
                   ("names", q.lst([t_bytes(n) for n in case["names"]])), ("file", t_bytes(case["file"]))])
@@ -439,7 +450,7 @@ def generate(rng, tier):
     files = ["", "\n", "\n\n", "a", "a\n", "a\r\n", " a \n", "\ta\t\r\n", "a b", "a b\n", "a b\nb\n", "b\na b", "a\nb\nc\n",
              "a b c\n", "a\tb\n", "a  b\n", "a   b\n", "a (b)\n", "a(b)\n", "a (b)\r\na(b)", "\n\na\n\n", " \n\t\nb c\n \n",
              "b\nb\nb\n", "m.t [x y]\n", "m.t\n[x\ny]\n", "\u00e9 \u00e8\n", "\u00e9\n\u00e8\n", "a\n\n\nc", "a \t \nb", "c\n-\n",
-             "a b\r\na b c\r\nb c\r\n", "a\x0b\n", "\x0cb\n", "a\rb\n", "a\r\r\n", "a,b\n", "zzz\n", "A\n", "a b \n c\n"]
+             "a b\r\na b c\r\nb c\r\n", "a\x0b\n", "\x0cb\n", "a\r\r\n", "a,b\n", "zzz\n", "A\n", "a b \n c\n"]
     for f in files:
         for t in (flat, nest):
             cases.append({"tree": t, "keep": [1, 8], "unpack": False, "names": list(ab), "file": f})
@@ -474,7 +485,11 @@ def generate(rng, tier):
                       "file": make_file(rng, nm, ls)})
     # a sample goes through `python -m testtools.run` in a subprocess instead of run.main() in-process
     n_sub = 20 if tier == "quick" else 200
-    rich = [c for c in cases if len(c["file"]) > 8 and c["names"] != PLAIN and len(leaves(c["tree"])) >= 3]
+    def rich_case(c):
+        used = set(c["names"][i] for i in leaves(c["tree"]))
+        listed = set(x.strip(WS) for x in c["file"].split("\n")) & used
+        return len(used) >= 3 and any(" " in x or "\t" in x for x in listed) and listed != used
+    rich = [c for c in cases if rich_case(c)]
     for c in rng.sample(rich, min(n_sub, len(rich))):
         cases.append(dict(c, cli="sub"))
     for c in cases:
@@ -483,6 +498,7 @@ def generate(rng, tier):
 
 
 def shrink(case):
+    case = norm(case)
     t = case["tree"]
 
     def subs(t):
@@ -534,6 +550,7 @@ def distribution(cases):
          "file_without_final_newline": 0, "file_blank_lines": 0, "file_padded_lines": 0,
          "file_lists_id_with_blank": 0, "file_line_with_two_ids": 0, "cli_subprocess": 0}
     for c in cases:
+        c = norm(c)
         t = c["tree"]
         ls = leaves(t)
         d["depth"][depth(t)] = d["depth"].get(depth(t), 0) + 1
@@ -569,12 +586,14 @@ def extra_checks(tier, rng):
     out = []
     repo = os.environ.get("VERIF_REPO", "/repo")
     harness = os.path.dirname(os.path.dirname(os.path.dirname(os.path.abspath(__file__))))
-    for k in range(n):
+    tries = 0
+    while len(out) < n and tries < 20 * n:
+        tries += 1
         pool = list(range(1, 13))
         rng.shuffle(pool)
         t = ["P", [rand_tree(rng, 3, pool) for _ in range(rng.randint(1, 3))]]
         ls = leaves(t)
-        if len(set(ls)) != len(ls):
+        if len(set(ls)) != len(ls) or len(ls) < 2:
             continue
         names = pick_names(rng)
         d = tempfile.mkdtemp(prefix="c19rt")
